@@ -3,6 +3,8 @@ package checks
 import (
 	"fmt"
 	"math/rand"
+	"os"
+	"path/filepath"
 	"regexp"
 	"strings"
 
@@ -29,6 +31,7 @@ func init() {
 			"open findings D13 (unbounded recursion overflows the Go stack) and D14 (unbounded array repetition) are probed separately; generated programs bound recursion fuel and repetition counts",
 		},
 		RlimitMB: 6144,
+		NeedsEvy: true,
 		NumCases: func(tier string) int {
 			if tier == "thorough" {
 				return 60000
@@ -235,6 +238,26 @@ func hostileProgram(r *rand.Rand) *gen.Program {
 func c02Run(c *core.Ctx, i int) {
 	p := c.State.(*srcPool)
 	r := c.Rng
+	if i%16 == 7 { // stream 5: text families shared with the semantic checks, and read through the real CLI
+		k := (i / 16) % 8
+		fams := []struct {
+			name string
+			src  func(*rand.Rand) string
+		}{{"unary-on-stored-values", unaryOnCallSource}, {"variadic-sequences", variadicSequenceSource}, {"concat-aliases", concatAliasSource},
+			{"dynamic-scope", dynamicScopeSource}, {"typed-shadow-blocks", typedShadowBlockSource}, {"bulk-map", bulkMapSource}, {"repeated-maps", repeatedMapSource}}
+		if k == 7 {
+			c.Cover("stream", "cli-read")
+			c02CLIRead(c)
+			return
+		}
+		f := fams[k]
+		c.Cover("stream", "family:"+f.name)
+		src := f.src(r)
+		if o := soundRun(c, src, f.name+" family"); o.Class == "parse-error" {
+			c.Violation("harness-program-rejected:"+f.name, "a program of the "+f.name+" family is rejected: "+firstN(o.ErrText, 300), src, nil)
+		}
+		return
+	}
 	if i%16 == 15 { // stream 4: targeted families
 		switch r.Intn(8) {
 		case 6, 7:
@@ -374,4 +397,73 @@ func c02Probe(c *core.Ctx, f core.Finding) (bool, string) {
 		return true, conf.Violations[0]
 	}
 	return false, fmt.Sprintf("ended with %s", o.Class)
+}
+
+// c02CLIRead runs a program that calls read a fixed number of times through the real `evy run` on hostile
+// standard input: empty lines, CRLF, a last line without newline, fewer lines than reads, no input at
+// all, a very long line. The host must not crash (no Go trace, exit status 0 or 1), and every read
+// served by a complete line must return exactly that line.
+func c02CLIRead(c *core.Ctx) {
+	r := c.Rng
+	reads := 1 + r.Intn(5)
+	lineKinds := []string{"word", "", "two words", " padded ", "é🌍", "crlf\r", "\r", "tab\there", "long", "7", "\\n"}
+	var lines []string
+	nlines := r.Intn(reads + 2)
+	for k := 0; k < nlines; k++ {
+		l := lineKinds[r.Intn(len(lineKinds))]
+		if l == "long" {
+			l = strings.Repeat("x", 70000)
+		}
+		lines = append(lines, l)
+	}
+	stdin := ""
+	for _, l := range lines {
+		stdin += l + "\n"
+	}
+	complete := len(lines)
+	if r.Intn(3) == 0 { // last line without its newline
+		stdin += "partial"
+	}
+	src := fmt.Sprintf("n := 0\nwhile n < %d\n    s := read\n    print n (len s) \"[\"+s+\"]\"\n    n = n + 1\nend\nprint \"done\"\n", reads)
+	f := filepath.Join(c.Tmp, "cliread.evy")
+	if err := os.WriteFile(f, []byte(src), 0o644); err != nil {
+		c.Inconclusive("write: " + err.Error())
+		return
+	}
+	c.Journal(src + "\n--- stdin ---\n" + firstN(stdin, 400))
+	out, errOut, code, err := evyCmd(c, stdin, "run", f)
+	c.Event("cli_read_runs", 1)
+	c.Event("programs_run", 1)
+	if err != nil {
+		c.Inconclusive("evy run: " + err.Error())
+		return
+	}
+	witness := src + "\n--- stdin (" + fmt.Sprint(len(lines)) + " complete lines) ---\n" + firstN(stdin, 300)
+	if strings.Contains(errOut, "goroutine ") || (code != 0 && code != 1) {
+		kind := "end-of-input"
+		if reads <= complete {
+			kind = "complete-lines"
+		}
+		c.Violation("cli-host-crash:read:"+kind, fmt.Sprintf("evy run crashed (exit %d) in read: %s", code, firstN(errOut, 200)), witness, nil)
+		return
+	}
+	got := strings.Split(out, "\n")
+	for k := 0; k < reads && k < complete; k++ {
+		c.Event("cli_read_lines_checked", 1)
+		want := fmt.Sprintf("%d %d [%s]", k, len([]rune(lines[k])), lines[k])
+		if strings.Contains(lines[k], "\r") {
+			continue // whether a carriage return belongs to the line is not documented
+		}
+		if k >= len(got) || got[k] != want {
+			g := "(missing)"
+			if k < len(got) {
+				g = got[k]
+			}
+			c.Violation("cli-read-wrong-line", fmt.Sprintf("read %d returned %s, the input line gives %s", k, firstN(g, 80), firstN(want, 80)), witness, nil)
+			return
+		}
+	}
+	if reads <= complete && (code != 0 || !strings.HasSuffix(out, "done\n")) {
+		c.Violation("cli-read-incomplete", fmt.Sprintf("all reads had a complete line, but the run ended with exit %d and output tail %q", code, tail(out, 60)), witness, nil)
+	}
 }
